@@ -15,8 +15,69 @@ def run_glue(ctx, focus, n_batches):
         one_batch(ctx, focus, random.Random(bseed), b, bseed, cases, descr)
     if focus in ('c09', 'c02'):
         long_sentences(ctx, focus, 1 if ctx.quick else 8)
+    special_batches(ctx, focus, cases, descr)
     ctx.coq_cases('retrieve_tree', glue.PRE, cases, chunk=60, describe=lambda i: descr[i])
     ctx.stats['retrieve_cases'] = len(cases)
+
+
+def special_batches(ctx, focus, cases, descr):
+    """two batches that every run contains, whatever the seed: (1) a pair of children with ~300 differently labelled results of which only those
+    beyond index 255 lead to a parse; (2) bare-string tokens (bracket escapes among them) next to Token objects"""
+    import random
+    from depccg.types import CombinatorResult
+    rng = random.Random(f'{ctx.seed}:{focus}:special')
+    A_, B_, C_ = (Category.parse(x) for x in 'ABC')
+    cats = [A_, B_, C_]
+    dead = Category.parse('Zdead')
+    for variant in ('wide', 'strings'):
+        bseed = f'{ctx.seed}:{focus}:special:{variant}'
+        c = _TagFail(ctx, bseed)
+        hl = rng.random() < 0.5
+        if variant == 'wide':
+            nres = rng.randint(259, 300)
+            table = {(A_, B_): [CombinatorResult(cat=(dead if i < 256 else cats[i % 3]), op_string=f'w{i}', op_symbol=f'<w{i}>', head_is_left=hl) for i in range(nres)]}
+            utable = {A_: [CombinatorResult(cat=(dead if j < 256 else B_), op_string=f'u{j}', op_symbol=f'<u{j}>', head_is_left=True) for j in range(nres)]}
+        else:
+            table = {(x, y): [CombinatorResult(cat=C_, op_string=f'r{x}{y}', op_symbol='<r>', head_is_left=hl)] for x in cats for y in cats}
+            utable = {}
+        binary, unary = (lambda x, y: list(table.get((x, y), []))), (lambda x: list(utable.get(x, [])))
+        sents = []
+        for n in ((2, 1, 2) if variant == 'wide' else (3, 2, 4)):
+            s = glue.rand_sentence(rng, 3, n=n)
+            s.tokens = [gen.rand_token(rng, 'en', full=False, plain=True) for _ in range(n)]
+            if variant == 'wide':
+                s.tag[:, :] = -5.0
+                s.tag[0, 0] = -0.125            # A
+                if n > 1:
+                    s.tag[1, 1] = -0.25         # B
+            else:
+                for j in range(1, n):
+                    s.tokens[j] = rng.choice(['-LRB-', '-RRB-', '-LCB-', '-RSB-', 'word', "n't"])
+            sents.append(s)
+        nbest = 1 if variant == 'wide' else rng.choice([1, 2])
+        try:
+            res, rec = glue.run(sents, cats, cats, binary, unary, unary_penalty=0.125, beta=0.1, use_beta=False, pruning_size=2 if variant == 'wide' else 50,
+                                nbest=nbest, max_step=20000, max_length=250)
+        except Exception as e:      # noqa
+            c.fail('run_raised', f'depccg.parsing.run raised {type(e).__name__}: {e} on the {variant} batch', {'variant': variant})
+            continue
+        ctx.count('glue:special:' + variant)
+        k = 0
+        for si, (s, rs) in enumerate(zip(sents, res)):
+            ctx.case(('special', variant, si, tuple(map(tuple, s.tag.tolist()))), nontrivial=True)
+            if len(rs) == 1 and glue.is_placeholder(rs[0]):
+                if variant == 'wide':
+                    c.fail('false_failure', f'{variant} batch, sentence {si}: no parse although the results beyond index 255 of the pair (A, B) / of the unary rules of A license one', {'variant': variant})
+                continue
+            for ti, st in enumerate(rs):
+                where = f'{variant} batch sentence {si} tree {ti}'
+                glue.check_tree(c, focus if focus in ('c02', 'c12', 'c09', 'c16') else 'c02', st.tree, st.score, s, cats, cats, binary, unary, [list(cats)] * len(s.tokens), 0.125, where)
+                if focus != 'c12':
+                    glue.check_tree(c, 'c12', st.tree, st.score, s, cats, cats, binary, unary, [list(cats)] * len(s.tokens), 0.125, where)
+                if k < len(rec):
+                    cases.append(glue.retrieve_case(rec[k], st.tree))
+                    descr.append(where)
+                k += 1
 
 
 def long_sentences(ctx, focus, count):
@@ -75,6 +136,11 @@ def replay(data, focus):
         bs = d.get('batch_seed') if isinstance(d, dict) else None
         if bs and bs not in seen:
             seen.add(bs)
+            if ':special:' in bs:
+                seed, foc, _, _v = bs.split(':')
+                ctx.seed = int(seed)
+                special_batches(ctx, foc, [], [])
+                continue
             if ':long:' in bs:
                 seed, foc, _, b = bs.split(':')
                 ctx.seed = int(seed)
